@@ -5,7 +5,7 @@ from harness import impl
 from harness.common import rng, short
 from harness.gen import corpus, mutate, pyprog, xonshgen
 
-VERSIONS = [None, (3, 8), (3, 9), (3, 10), (3, 11), (3, 12), (3, 13)]
+VERSIONS = [None, (3, 8), (3, 9), (3, 10), (3, 11), (3, 12), (3, 13), (4, 0), (5, 3), (3, 12, 1, 0), (3, 11, 0, 0), (3, 12, 0)]
 GATED = {
     "try:\n    pass\nexcept* E:\n    pass\n": (3, 11),
     "class A[T]: pass\n": (3, 12),
@@ -18,7 +18,7 @@ GATED = {
 
 
 def grid(src, mode, variant="shipped"):
-    """All 14 configurations for one input; returns list of (verbose, version, outcome-without-noise)."""
+    """All configurations (verbose x VERSIONS) for one input; returns list of (verbose, version, outcome-without-noise)."""
     out = []
     for v in VERSIONS:
         for verbose in (False, True):
@@ -56,7 +56,8 @@ def check_one(src, mode, need_hint, variant="shipped"):
             return {"kind": "verbose-changes-result", "py_version": v, "quiet": _short(ref), "verbose": _short(o)}
         if vb:
             continue
-        eff = min(v, cur) if v else cur
+        eff = min(tuple(v), tuple(sys.version_info[:3]))[:2] if v else cur
+        eff = eff if len(eff) == 2 else eff + (0,) * (2 - len(eff))
         if need is None or eff >= need:
             if o != base and base["k"] != "tree" and o["k"] == "err" and re.search(r"is only supported in Python \((\d+), (\d+)\) and above", o.get("msg") or ""):
                 continue  # an input that is rejected anyway may be rejected earlier by a version gate it contains
@@ -100,7 +101,7 @@ def build_inputs(tier):
 
 def run(rep, tier, pool, variants=("shipped",)):
     rep.rule = (
-        "inputs x the full option grid verbose in {F,T} x py_version in {None,(3,8)..(3,13)} (14 configurations each): version-gated programs "
+        "inputs x the full option grid verbose in {F,T} x py_version in {None,(3,8)..(3,13),(4,0),(5,3),(3,12,1,0),(3,11,0,0),(3,12,0)} (24 configurations each): version-gated programs "
         "(except*, type parameter lists, type statements; alone and embedded), Python/xonsh snippet pools, all macro kinds, generated programs, and "
         "damaged (failing) variants; oracle: verbose result == quiet result (tree dump with positions or full error attributes); for py_version >= "
         "need and for None the result equals the default; below it the result is a SyntaxError naming the required version; distinct by (text, mode)"
